@@ -111,9 +111,10 @@ func (g *wireGen) accountName() string {
 	case 14:
 		return "Wallet 1/Account .*"
 	case 0:
-		return ""
+		// nothing, or nothing but blanks
+		return []string{"", "", " ", "\t", "  \n", " / "}[ch.Pick(6, 0)]
 	case 1:
-		return "NoSlash"
+		return []string{"NoSlash", " Wallet 1/Account 0", "Wallet 1/Account 0 ", "Wallet 1 / Account 0"}[ch.Pick(4, 0)]
 	case 2:
 		return "/"
 	case 3:
